@@ -88,6 +88,7 @@ LINES_A4 = [
 ]
 LINES_A6 = [
     ["lit: ipv6 local pool P1 ", "a6", "lit:-", "a6"],
+    ["lit: neighbor ", "a6", "lit: remote-as 65001 update-source ", "a4"],       # both families on one line, IPv6 first
     ["lit:ipv6 address ", "a6p"],
     ["lit: neighbor ", "a6", "lit: remote-as 65001"],
     ["lit:ipv6 route ", "a6p", "lit: ", "a6"],
